@@ -826,10 +826,10 @@ func (r *run) compare(sqlText string, q queryDef, exp map[string]*expGroup, rs *
 			}
 			if cands == nil {
 				if gv != want {
-					if splitSlot && prop == "C11" {
-						// known finding: the partial sums of one storage slot (points written at different times sit
-						// in different buffers / databases / files) are combined by the query function
-						if r.pendingFirstLast == nil && firstLastFlag == nil {
+					if splitSlot {
+						// known finding (reported under C11 only): the partial sums of one storage slot (points written
+						// at different times sit in different buffers / databases / files) are combined by the query function
+						if prop == "C11" && r.pendingFirstLast == nil && firstLastFlag == nil {
 							firstLastFlag = func() {
 								c.Violate(prop+"/function-over-partial-sums", "%s: group %v slot %s = %v, %s over the per-slot sums of the written points is %v", sqlText, e.tags, fmtTime(s), gv, q.fn, want)
 							}
